@@ -235,6 +235,22 @@ func (n *Node) setStatus(status NodeStatus) {
 	n.data.State.Status = status
 }
 
+// finishIfRunning gives a node whose worker is done its final label if it is still
+// running. Test and update happen under one lock: a stop request that cancels
+// the node in between must not be overwritten.
+func (n *Node) finishIfRunning(executed bool) {
+	n.mu.Lock()
+	defer n.mu.Unlock()
+	if n.data.State.Status != NodeStatusRunning {
+		return
+	}
+	if executed {
+		n.data.State.Status = NodeStatusSuccess
+	} else {
+		n.data.State.Status = NodeStatusCancel
+	}
+}
+
 func (n *Node) setErr(err error) {
 	n.mu.Lock()
 	defer n.mu.Unlock()
